@@ -3,6 +3,8 @@
 package main
 
 import (
+	"fmt"
+	"strings"
 	"time"
 
 	"verif/consnet"
@@ -54,8 +56,102 @@ func main() {
 			}
 			return 12 * time.Minute
 		},
+		Extra: soloDriver,
 		Assume: []string{"Byzantine validators sign only with their own key; hash and signature schemes are sound",
 			"network model: every message ever sent stays deliverable; the default schedule hands a message to a node when its round state can use it (as gossip does); rules withhold, duplicate, reorder or forge",
 			"toy application (app hash = hash of the block) behind the real hook interface"},
 	}).Main()
+}
+
+// soloDriver: breadth-first search over round scripts played to ONE real
+// validator by a fully adversarial environment (the harness holds the other
+// three keys).  States are deduplicated by (round-state digest, monitor lock).
+func soloDriver(run *core.Run, cov core.Coverage) {
+	rounds := run.Pick(2, 3)
+	deadline := time.Now().Add(time.Duration(run.Pick(40, 420)) * time.Second)
+	type st struct {
+		steps []consnet.SoloStep
+		lock  string
+	}
+	frontier := []st{{}}
+	seen := map[string]bool{}
+	runs, transitions, viol := 0, 0, 0
+	complete := 0
+	for r := 0; r < rounds; r++ {
+		var scs []*consnet.Scenario
+		for _, f := range frontier {
+			if r > 0 && f.lock == "" && (run.Quick() || r > 1) {
+				continue // deeper rounds: only states that hold a lock are expanded (the discipline under test)
+			}
+			for _, s := range consnet.SoloRoundScripts(int64(r), r > 0) {
+				steps := append(append([]consnet.SoloStep{}, f.steps...), s...)
+				scs = append(scs, &consnet.Scenario{ID: len(scs), Powers: []int64{1, 1, 1, 1}, Byz: -1, Heights: 1, Mode: "nohash", Solo: &consnet.SoloSpec{Node: 2, Steps: steps}})
+			}
+		}
+		var next []st
+		levelDone := true
+		for len(scs) > 0 {
+			if time.Now().After(deadline) {
+				levelDone = false
+				cov["solo_scripts_skipped_by_budget"] = len(scs)
+				break
+			}
+			k := 256
+			if k > len(scs) {
+				k = len(scs)
+			}
+			chunk := scs[:k]
+			scs = scs[k:]
+			consnet.RunPool(chunk, consnet.PoolOpts{WorkBase: run.WorkDir() + "/solo"}, func(o consnet.CaseOutcome) {
+				runs++
+				if o.Res == nil {
+					if o.Died && o.PanicLine != "" {
+						run.Notes = append(run.Notes, "solo driver: node goroutine panicked (counted under C08): "+o.PanicLine+" in "+o.Sc.String())
+					}
+					return
+				}
+				transitions += o.Res.Steps
+				for _, v := range o.Res.Viols {
+					if v.Prop == "C04" {
+						viol++
+						v.Sig["driver"] = "solo"
+						run.Report(v.Sig, o.Sc, v.Detail+" | "+o.Sc.String())
+					}
+				}
+				k := consnet.SoloKey(o.Res)
+				if !seen[k] {
+					seen[k] = true
+					if len(o.Res.Commits) == 0 {
+						lock := o.Res.Extra["lock"]
+						if strings.HasSuffix(lock, "/") {
+							lock = ""
+						}
+						next = append(next, st{o.Sc.Solo.Steps, lock})
+					}
+				}
+			})
+		}
+		if !levelDone {
+			break
+		}
+		complete = r + 1
+		cov[fmt.Sprintf("solo_frontier_after_round_%d", r)] = len(next)
+		frontier = next
+		if len(frontier) == 0 {
+			break
+		}
+	}
+	cov["solo_scripts_executed"] = runs
+	cov["solo_distinct_states"] = len(seen)
+	cov["solo_rounds_completed"] = complete
+	cov["solo_inputs_processed"] = transitions
+	if s, ok := cov["states"].(int); ok {
+		cov["states"] = s + len(seen)
+	}
+	if t, ok := cov["transitions"].(int); ok {
+		cov["transitions"] = t + transitions
+	}
+	if complete < rounds {
+		cov["exhaustive"] = false
+	}
 }
